@@ -3,6 +3,7 @@
 package mapr
 
 import (
+	"github.com/mimecast/dtail/internal/mapr/funcs"
 	"time"
 
 	"github.com/mimecast/dtail/internal/io/dlog"
@@ -219,11 +220,11 @@ func VerifC11bSelect(k int) {
 }
 
 type c11Cond struct {
-	text           string
-	l, r           string
-	lt, rt         fieldType
-	op             QueryOperation
-	lf, rf         float64
+	text   string
+	l, r   string
+	lt, rt fieldType
+	op     QueryOperation
+	lf, rf float64
 }
 
 var c11FloatOps = []struct {
@@ -318,7 +319,7 @@ func VerifC11bWhere(k int) {
 // VerifC11bMisc: set / group / order / interval / limit / outfile / logformat, in rotating clause order.
 func VerifC11bMisc(part int) {
 	dlog.VerifInstall(source.Client)
-	id := "fab" // concrete identifiers here: the clause structure is what varies
+	id := "fab"                      // concrete identifiers here: the clause structure is what varies
 	up := verifrt.Choose("upper", 9) // which keyword is upper-cased (8 = none)
 	kw := func(i int, k string) string { return c11KW(k, up == i) }
 	agg := "sum(" + id + ")"
@@ -465,6 +466,14 @@ func VerifC11bSet(k int) {
 		verifrt.Assert(s.lString == w.l && s.rString == w.r, "set operand misparsed")
 		verifrt.Assert(s.rType == w.rt && s.rFloat == w.rf, "set operand type misparsed")
 		verifrt.Assert(len(s.functionStack) == w.nfn, "set function stack misparsed")
+		if w.nfn == 2 {
+			// md5sum(maskdigits(x)): the outer function first; the stack denotes md5sum applied to the masked text
+			verifrt.Assert(s.functionStack[0].Name == "md5sum" && s.functionStack[1].Name == "maskdigits", "nested functions parsed in the wrong order")
+			// (FunctionStack.Call applies the stack from its last element to its first: the inner function first)
+		}
+		if w.nfn == 1 {
+			verifrt.Assert(s.functionStack[0].Name == "maskdigits" && s.functionStack.Call("a1") == funcs.MaskDigits("a1"), "function call misparsed")
+		}
 	}
 	verifrt.Reach("set-checked")
 }
